@@ -814,6 +814,8 @@ def answer (stream : String) (f : Array String) : Ans :=
              let r : Option (List (Str × Str) × BuiltinOut) :=
                if name = "alias".toList then some (aliasBuiltin A c.tokens sortedA)
                else if name = "unalias".toList then some (unaliasBuiltin A c.tokens)
+               -- `unset NAME` (a valid name): variables and functions only -- the alias table is untouched
+               else if name = "unset".toList ∧ c.tokens.length = 2 then some (A, {})
                else none
              (match r with
               | some (A', o) => (A', outs ++ [toString o.status ++ "|" ++ hex (sortLines o.out) ++ "|" ++ hex o.err])
@@ -939,7 +941,12 @@ def answer (stream : String) (f : Array String) : Ans :=
     -- reference: the function's standard output (one id per line, final newline removed)
     let capOf (tr : List (Str × Int × List Str)) : String := hex (joinWith ['\n'] (idsOf tr))
     -- model of `core::try_run_func` under capture: the stdout of every command it ran, each trimmed, joined by single blanks
-    let capModel (tr : List (Str × Int × List Str)) : String := hex (joinWith [' '] (idsOf tr))
+    -- (a silent pipeline of a list line -- marked `cond N L` -- contributes its empty output too: that is where double blanks come from)
+    let capModel (tr : List (Str × Int × List Str)) : String :=
+      let outs : List Str := tr.filterMap (fun (l, _, _) => match splitOnChar ' ' l with
+        | w :: i :: rest => if w = "stage".toList then some i else if w = "cond".toList ∧ rest = [['L']] then some [] else none
+        | _ => none)
+      hex (trim (joinWith [' '] outs))
     let m : String := match runLines sem (args.drop 1) fuel text {} with
       | .ok (some r) => traceOut3 r.st.trace ++ "#" ++ capModel r.st.trace
       | .ok none => "SYNTAX-ERROR"
